@@ -35,26 +35,28 @@ Below(q, p) == IF q = Root THEN FALSE ELSE (Parent[q] = p \/ Below(Parent[q], p)
 WellFormed(t) == \A q \in Paths : (There(t[q]) /\ Parent[q] # Root) => IsDir(t[Parent[q]])
 Trees == {t \in [Paths -> {Nope, Dir} \cup {File(c, x) : c \in Contents, x \in BOOLEAN}] : WellFormed(t)}
 
-VARIABLES ws, tgt, avail, del, link, lists, errs, crash, dev, pc, act
-vars == <<ws, tgt, avail, del, link, lists, errs, crash, dev, pc, act>>
+VARIABLES ws, tgt, avail, del, link, hashed, lists, errs, crash, dev, pc, act
+vars == <<ws, tgt, avail, del, link, hashed, lists, errs, crash, dev, pc, act>>
 
 (****************************** compare ************************************)
 \* the entry-level classification of the diff with meta_cmp_key = (isdir, isexec)
-Changed(o, n) == There(o) /\ There(n) /\ (o.k # n.k \/ (IsFile(o) /\ o.c # n.c))
-ExecOnly(o, n) == IsFile(o) /\ IsFile(n) /\ o.c = n.c /\ o.x # n.x
+\* `hsh` = the old index carries hashes (md5() was run on it); a plain build() has none, and then every file that is
+\* on both sides counts as modified
+Changed(o, n, hsh) == There(o) /\ There(n) /\ (o.k # n.k \/ (IsFile(o) /\ (o.c # n.c \/ ~hsh)))
+ExecOnly(o, n, hsh) == IsFile(o) /\ IsFile(n) /\ o.c = n.c /\ hsh /\ o.x # n.x
 \* breadth-first order: by depth (the order inside one level is irrelevant to the outcome)
 ByDepth(S) == SortSeq(SetToSeq(S), LAMBDA a, b : Depth[a] < Depth[b])
-Compare(w, t, delete) ==
+Compare(w, t, delete, hsh) ==
     LET gone  == {p \in Paths : There(w[p]) /\ ~There(t[p])}
         fresh == {p \in Paths : ~There(w[p]) /\ There(t[p])}
-        chg   == {p \in Paths : Changed(w[p], t[p])}
+        chg   == {p \in Paths : Changed(w[p], t[p], hsh)}
         delS  == (IF delete THEN gone ELSE {}) \cup chg
         newS  == fresh \cup chg
     IN [files_delete |-> {p \in delS : IsFile(w[p])},
         dirs_delete  |-> ByDepth({p \in delS : IsDir(w[p])}),
         dirs_create  |-> {p \in newS : IsDir(t[p])},
         files_create |-> {p \in newS : IsFile(t[p])},
-        files_chmod  |-> {p \in newS : IsFile(t[p]) /\ t[p].x} \cup {p \in Paths : ExecOnly(w[p], t[p])}]
+        files_chmod  |-> {p \in newS : IsFile(t[p]) /\ t[p].x} \cup {p \in Paths : ExecOnly(w[p], t[p], hsh)}]
 
 (******************************** apply ************************************)
 Empty(w, d) == \A q \in Children(d) : ~There(w[q])
@@ -96,15 +98,16 @@ Apply(w, t, a, L, lk) ==
         dev |-> IF (dg # {} \/ \E p \in mute : t[p].c \notin a) /\ "F13" \in KnownDev THEN {"F13"} ELSE {}]
 
 (******************************* state machine ******************************)
-Init == /\ ws \in Trees /\ tgt \in Trees /\ avail \in SUBSET Contents /\ del \in BOOLEAN /\ link \in {"copy", "symlink", "hardlink"}
+Init == /\ ws \in Trees /\ tgt \in Trees /\ avail \in SUBSET Contents /\ del \in BOOLEAN /\ link \in {"copy", "symlink", "hardlink"} /\ hashed \in BOOLEAN
         /\ lists = [files_delete |-> {}] /\ errs = {} /\ crash = FALSE /\ dev = {} /\ pc = "compare" /\ act = [op |-> "Init"]
-DoCompare == /\ pc = "compare" /\ lists' = Compare(ws, tgt, del) /\ pc' = "apply" /\ act' = [op |-> "Compare"]
-             /\ UNCHANGED <<ws, tgt, avail, del, link, errs, crash, dev>>
+DoCompare == /\ pc = "compare" /\ lists' = Compare(ws, tgt, del, hashed) /\ pc' = "apply" /\ act' = [op |-> "Compare"]
+             /\ UNCHANGED <<ws, tgt, avail, del, link, hashed, errs, crash, dev>>
 DoApply == /\ pc = "apply"
            /\ LET r == Apply(ws, tgt, avail, lists, link) IN ws' = r.ws /\ errs' = r.errs /\ crash' = r.crash /\ dev' = r.dev
-           /\ pc' = "again" /\ act' = [op |-> "Apply"] /\ UNCHANGED <<tgt, avail, del, link, lists>>
-DoAgain == /\ pc = "again" /\ lists' = Compare(ws, tgt, del) /\ pc' = "done" /\ act' = [op |-> "Compare2"]
-           /\ UNCHANGED <<ws, tgt, avail, del, link, errs, crash, dev>>
+           /\ pc' = "again" /\ act' = [op |-> "Apply"] /\ UNCHANGED <<tgt, avail, del, link, hashed, lists>>
+\* (the second compare is always made on a hashed index of the workspace)
+DoAgain == /\ pc = "again" /\ lists' = Compare(ws, tgt, del, TRUE) /\ pc' = "done" /\ act' = [op |-> "Compare2"]
+           /\ UNCHANGED <<ws, tgt, avail, del, link, hashed, errs, crash, dev>>
 Next == DoCompare \/ DoApply \/ DoAgain
 Spec == Init /\ [][Next]_vars
 
